@@ -257,12 +257,15 @@ var stackBuf = make([]byte, 1<<20)
 // real timers, so a quiescent world cannot move until the explorer acts.
 func (w *World) Settle() {
 	w.barriers++
+	start := time.Now()
 	for spins := 0; ; spins++ {
 		runtime.Gosched()
 		if quiet, _ := goroutinesQuiet(); quiet {
 			return
 		}
-		if spins > 200000 {
+		// a goroutine that is still runnable after 200000 yields or 30 s of wall time is spinning
+		// (with one P every yield to a spinner costs a preemption slice, hence the time bound)
+		if spins > 200000 || (spins&15 == 15 && time.Since(start) > 30*time.Second) {
 			_, s := goroutinesQuiet()
 			panic("world does not become quiescent; busy goroutine: " + s)
 		}
